@@ -22,17 +22,17 @@ FUNCTIONS = ["wannierberri.grid.grid.Grid.__init__/get_K_list/points_FFT/dense",
              "wannierberri.run_grid.run/process", "wannierberri.result.resultdict.ResultDict.__add__/__mul__", "wannierberri.result.energyresult.EnergyResult.__add__/__mul__",
              "wannierberri.result.tabresult.TABresult.__add__/find_grid/to_grid/self_to_grid/savedata", "wannierberri.result.kbandresult.K__Result.__add__/data/to_grid",
              "wannierberri.calculators.tabulate.TabulatorAll.__init__/__call__"]
-BOUNDS = dict(quick=dict(grids="N = (2,2,1) (4,1,1) (3,2,1) (1,1,4) (2,1,3) (2,2,2) [matrix level]; (2,2,1) (4,1,1) (3,1,2) [run() level]", factorisations="every N_i = NKdiv_i x NKFFT_i",
+BOUNDS = dict(quick=dict(grids="N = (2,2,1) (4,1,1) (3,2,1) (1,1,4) (2,1,3) (2,2,2) [matrix level]; (2,2,1) (4,1,1) (3,1,2) [run() level, use_irred_kpt=False]; (1,4,2) (2,1,4) [run() level with run()'s defaults use_irred_kpt=True, symmetrize=True on a system without point symmetry]", factorisations="every N_i = NKdiv_i x NKFFT_i",
                          num_wann="2 (matrix level), 1..2 (run level)", R_vectors="13..19, reaching beyond every FFT box (|R_i| up to N_i)", fftlib="'slow' for every factorisation, fftw(stub) / numpy(stub) alternating with the factorisation",
                          data="symbolic Hermitian Ham(R), |.|<=1; concrete triclinic lattice and Wannier centres", grid_resolution="determineNK / autoNK on 14 enumerated requests (concrete)"),
-              thorough=dict(grids="all N with N_i<=4 and at most 16 k-points [matrix level]; 8 grids up to (4,2,2) [run() level]", factorisations="every N_i = NKdiv_i x NKFFT_i", num_wann="2",
+              thorough=dict(grids="all N with N_i<=4 and at most 16 k-points [matrix level]; 8 grids up to (4,2,2) [run() level]; 6 anisotropic grids up to (2,4,2) with use_irred_kpt=True", factorisations="every N_i = NKdiv_i x NKFFT_i", num_wann="2",
                             R_vectors="13..19", fftlib="fftw(stub), numpy(stub) and slow for every factorisation (matrix level); slow + alternating fftw/numpy (run level)", data="as quick", grid_resolution="as quick"))
 EXPLANATION = ("For one regular grid N the real Grid.get_K_list / KpointBZ / Data_K_R / Rvectors / FFT_R_to_k chain (and, at the loop level, the real run() with the real TabulatorAll, ResultDict, TABresult, "
                "KBandResult and EnergyResult plumbing) is executed for every factorisation N = NKdiv x NKFFT on a symbolic Hermitian R-space Hamiltonian. z3 decides that the k-resolved Wannier-gauge H(k), dH(k) "
                "collected over all K-points, the table returned by run() after self_to_grid and the k-average returned by a summing calculator equal one factorisation-independent explicit sum at k = n/N "
                "to 1e-9 for all |data|<=1; coverage of the grid (every n/N exactly once) is a concrete fact per factorisation.")
-ASSUMPTIONS = ["|Ham(R)_ab| components in [-1,1] (tolerance obligations; homogeneous in the data)", "regular grids without symmetry reduction and without adaptive refinement (use_irred_kpt=False, adpt_num_iter=0); "
-               "those are C06/C07/C10", "X(-R)=X(R)^dagger"]
+ASSUMPTIONS = ["|Ham(R)_ab| components in [-1,1] (tolerance obligations; homogeneous in the data)", "systems without point symmetry (use_irred_kpt=False, and run()'s default use_irred_kpt=True / symmetrize=True with the trivial group: nothing may be merged) and no adaptive "
+               "refinement (adpt_num_iter=0); non-trivial groups and refinement are C06/C07/C10", "X(-R)=X(R)^dagger"]
 OUTSIDE = ["the eigen-decomposition and the formulas of the real static / dynamic / tabulating calculators between H(k), dH(k) and the integrand (cut: the stub calculators tabulate and average the Wannier-gauge "
            "matrix elements themselves, which is what every real calculator is a function of)", "FFT library internals (DFT by definition)", "grids with more than 16 k-points or N_i > 4",
            "ray-parallel execution of process() (C12)", "IEEE rounding (agreement claimed to 1e-9)"]
@@ -165,6 +165,8 @@ def case_matrix(rec, N, nb, libs, both=False):
                 KL = grid.get_K_list(use_symmetry=False)
                 rec.concrete(f"{tag}: one K-point per division cell, weights sum to 1", len(KL) == int(np.prod(div)) and abs(sum(K.factor for K in KL) - 1) < 1e-12,
                              f"{len(KL)} K-points, sum of factors {sum(K.factor for K in KL)}", key="Grid.get_K_list number of K-points / weights")
+                ok, detail = _irred_list_ok(system, div, fft, KL)
+                rec.concrete(f"{tag}: without point symmetry the irreducible K-list (run() default) is the full K-list", ok, detail, key="Grid.get_K_list(use_symmetry=True) merges K-points of a system without symmetry")
                 got = [np.empty((len(index),) + ref[d].shape[1:], dtype=object) for d in (0, 1)]
                 count = np.zeros(len(index), dtype=int)
                 offgrid = []
@@ -229,21 +231,33 @@ class HMean:
         return s.cls(Energies=[np.arange(nb * nb) * 1.0], data=data, transformTR=transform_ident, transformInv=transform_ident, rank=0, save_mode="")
 
 
-def _run(system, div, fft, lib, cls):
-    grid = _quiet(Grid, system=system, NKdiv=np.array(div), NKFFT=np.array(fft), use_symmetry=False)
-    calcs = {"tab": TabulatorAll({"Energy": HTab(0), "dH": HTab(1)}, mode="grid", save_mode=""), "mean": HMean(cls)}
-    return _quiet(RG.run, system, grid, calcs, adpt_num_iter=0, use_irred_kpt=False, symmetrize=False, parallel=False, data_k_class=DKR.Data_K_R,
-                  parameters_K=dict(fftlib=lib), fout_name="c03", file_Klist_path="/nonexistent/c03")
+def _irred_list_ok(system, div, fft, KL):
+    """a system without point symmetry: Grid(use_symmetry=True).get_K_list(use_symmetry=True) (what run() does by default) may not merge anything"""
+    grid = _quiet(Grid, system=system, NKdiv=np.array(div), NKFFT=np.array(fft), use_symmetry=True)
+    with contextlib.redirect_stdout(io.StringIO()):
+        KI = grid.get_K_list(use_symmetry=True)
+    same = len(KI) == len(KL) and all(np.abs(a.K - b.K).max() < 1e-12 and abs(a.factor - b.factor) < 1e-12 for a, b in zip(KI, KL))
+    return same, f"{len(KI)} irreducible K-points of {len(KL)}, factors {[round(float(K.factor), 4) for K in KI][:8]}"
 
 
-def case_run(rec, N, nb, libs):
+def _run(system, div, fft, lib, cls, irred=False, tab=True):
+    grid = _quiet(Grid, system=system, NKdiv=np.array(div), NKFFT=np.array(fft), use_symmetry=irred)
+    calcs = {"mean": HMean(cls)}
+    if tab:
+        calcs["tab"] = TabulatorAll({"Energy": HTab(0), "dH": HTab(1)}, mode="grid", save_mode="")
+    kw = dict(use_irred_kpt=False, symmetrize=False) if not irred else {}       # irred: run()'s defaults use_irred_kpt=True, symmetrize=True
+    return _quiet(RG.run, system, grid, calcs, adpt_num_iter=0, parallel=False, data_k_class=DKR.Data_K_R,
+                  parameters_K=dict(fftlib=lib), fout_name="c03", file_Klist_path="/nonexistent/c03", **kw)
+
+
+def case_run(rec, N, nb, libs, irred=False):
     """the real run() for every factorisation: table after self_to_grid and k-average == explicit sums at k = n/N"""
     _shadow()
     RG.get_ray_cpus_count = lambda: 1
     iR = rset_for(N)
     X = hermR("H", iR, nb)
     facts = factorisations(N)
-    par = dict(test="run", N=list(N), nb=nb, libs=list(libs))
+    par = dict(test="run", N=list(N), nb=nb, libs=list(libs), irred=irred)
     ntot = int(np.prod(N))
 
     def body(rec):
@@ -256,7 +270,10 @@ def case_run(rec, N, nb, libs):
         for ifac, (div, fft) in enumerate(facts):
             for lib in (libs[ifac % 2], "slow"):
                 tag = f"run() NKdiv={div} NKFFT={fft} {lib}"
-                res = _run(system, div, fft, lib, PrioResult)
+                if irred:      # integrals first: with K-points missing the tabulating calculator cannot even be put on the grid
+                    avg = _run(system, div, fft, lib, PrioResult, irred=True, tab=False).results["mean"]
+                    rec.close(f"{tag} use_irred_kpt=True: integrated quantity == average of the explicit sum over the grid", avg.data, mean, TOL, key="run(): integrated quantity depends on the factorisation")
+                res = _run(system, div, fft, lib, PrioResult, irred=irred)
                 tab, avg = res.results["tab"], res.results["mean"]
                 okgrid = isinstance(tab, TABresult) and tab.grid is not None and tuple(tab.grid) == tuple(N) and np.shape(tab.kpoints) == kgrid.shape and np.abs(tab.kpoints - kgrid).max() < 1e-12
                 rec.concrete(f"{tag}: tabulated result lies on the C-ordered grid n/N", bool(okgrid), f"grid={getattr(tab, 'grid', None)}", key="run(): TABresult grid differs from N")
@@ -318,6 +335,8 @@ def cases(tier, seed):
     for N in mat:
         libs = ("fftw", "numpy", "slow")
         out.append(Case(f"matrix N={N}", case_matrix, dict(N=N, nb=2, libs=libs, both=not q), timeout=1700))
+    for N, nb in ([((1, 4, 2), 1), ((2, 1, 4), 1)] if q else [((1, 4, 2), 2), ((2, 1, 4), 2), ((2, 4, 2), 1), ((1, 2, 4), 2), ((2, 2, 4), 1), ((3, 1, 2), 2)]):
+        out.append(Case(f"run use_irred_kpt=True N={N} nb={nb}", case_run, dict(N=N, nb=nb, libs=("fftw", "numpy"), irred=True), timeout=1700))
     for N, nb in runs:
         out.append(Case(f"run N={N} nb={nb}", case_run, dict(N=N, nb=nb, libs=("fftw", "numpy")), timeout=1700))
         if not q and np.prod(N) <= 8:
@@ -369,6 +388,10 @@ def replay(rec):
                     if tuple(grid.div) != div or tuple(grid.FFT) != fft or len(KL) != int(np.prod(div)) or abs(sum(K.factor for K in KL) - 1) > 1e-12:
                         bad.append(f"{tag}: grid/K-list")
                         continue
+                    ok, detail = _irred_list_ok(system, div, fft, KL)
+                    if not ok:
+                        bad.append(f"{tag}: irreducible K-list of a system without symmetry: {detail}")
+                        continue
                     count = np.zeros(ntot, dtype=int)
                     index = {n: i for i, n in enumerate(grid_points(N))}
                     for Kp in KL:
@@ -391,8 +414,14 @@ def replay(rec):
                     if not np.all(count == 1) and not (bad and bad[-1].startswith(tag)):
                         bad.append(f"{tag}: grid multiplicities {count.tolist()}")
                 else:
+                    irred = bool(w.get("irred"))
                     with contextlib.redirect_stdout(io.StringIO()):
-                        res = _run(system, div, fft, lib, EnergyResult)
+                        if irred:
+                            e0 = np.abs(_run(system, div, fft, lib, EnergyResult, irred=True, tab=False).results["mean"].data - refH.reshape(ntot, -1).mean(axis=0)).max()
+                            if e0 > 0.9 * TOL:
+                                bad.append(f"{tag} use_irred_kpt=True: integral differs from the grid average by {e0:.2e}")
+                                continue
+                        res = _run(system, div, fft, lib, EnergyResult, irred=irred)
                     tab, avg = res.results["tab"], res.results["mean"]
                     if tab.grid is None or tuple(tab.grid) != tuple(N):
                         bad.append(f"{tag}: table grid {tab.grid}")
